@@ -198,6 +198,9 @@ func (g *gen) run() {
 		for _, st := range stacks {
 			for _, cf := range cfgs {
 				for ki, k := range reqKinds {
+					if c.class == "multiline" && ki != 0 && ki != 1 && ki != 6 {
+						continue // several header lines: GET, GET+caller Accept-Encoding, HEAD
+					}
 					sc := s
 					if (ki+ci)%3 == 0 {
 						sc = s2
